@@ -469,7 +469,10 @@ func (c *Client) Get(
 		if err := c.logs(ctx, url, filter, bm, start, limit); err != nil {
 			return nil, fmt.Errorf("getting logs: %w", err)
 		}
-	case filter.UseTraces:
+	}
+	// receipts (or logs) and traces are not alternatives:
+	// a selection may need both
+	if filter.UseTraces {
 		if err := c.traces(ctx, url, bm, start, limit); err != nil {
 			return nil, fmt.Errorf("getting traces: %w", err)
 		}
